@@ -79,11 +79,19 @@ def replay_traces(trace_dirs):
                 mismatches=[l for l in lg.split("\n") if l.startswith("MISMATCH")])
 
 
+def has_cfetchd():
+    """the extended model (dynamic call lists, durabilities) is in the Coq tree"""
+    return os.path.exists(os.path.join(common.COQ, "CFetchD", "Extract.v"))
+
+
 def build_replay2():
-    """the CFetch2 trace replayer (ocaml/cfetch): extraction of coq/CFetch2 + replay2.ml"""
-    exe = os.path.join(common.BUILD, "ocaml-cfetch", "replay2")
-    deps = [os.path.join(common.COQ, "CFetch2", "Model.vo"), os.path.join(common.COQ, "CFetch2", "Extract.v"),
-            os.path.join(common.ROOT, "ocaml", "cfetch", "replay2.ml")]
+    """the trace replayer (ocaml/cfetch): extraction of coq/CFetchD + replay3.ml (dynamic call
+    lists, durability short-cut); before CFetchD existed: coq/CFetch2 + replay2.ml"""
+    model, name = ("CFetchD", "replay3") if has_cfetchd() else ("CFetch2", "replay2")
+    exe = os.path.join(common.BUILD, "ocaml-cfetch", name)
+    deps = [os.path.join(common.COQ, model, "Model.vo"), os.path.join(common.COQ, model, "Extract.v"),
+            os.path.join(common.ROOT, "ocaml", "cfetch", name + ".ml"),
+            os.path.join(common.ROOT, "ocaml", "cfetch", "build.sh")]
     if os.path.exists(exe) and all(os.path.exists(d) and os.path.getmtime(d) <= os.path.getmtime(exe) for d in deps):
         return exe
     common.sh([os.path.join(common.ROOT, "ocaml", "cfetch", "build.sh")], timeout=900, check=True,
@@ -101,14 +109,21 @@ def fetch_stage(ctx, harness, driver, out_root, own_kinds):
     -> (coverage dict, findings of the value/exec checks on these cases, mismatch lines, cases, spec)"""
     if not has_h10():
         return dict(fetch_replay="hook H10 is not in the salsa tree: stage skipped"), [], [], [], {}
-    okm, logm = common.coq_make(["CFetch2/Model.vo"])
+    general = has_cfetchd()
+    model = "CFetchD" if general else "CFetch2"
+    okm, logm = common.coq_make([model + "/Model.vo"])
     if not okm:
-        raise common.CheckError("CFetch2/Model.v does not compile:\n" + logm[-2000:])
+        raise common.CheckError(model + "/Model.v does not compile:\n" + logm[-2000:])
     exe = build_replay2()
     quick = ctx.tier == "quick"
     ncases = 20 if quick else 60
     iters = 150 if quick else 300
-    cases = list(pe.corpus("C16-static")) + pe.generate(ctx.seed, "static-low", ncases, "quick" if quick else "thorough", prefix="f")
+    size = "quick" if quick else "thorough"
+    cases = list(pe.corpus("C16-static")) + pe.generate(ctx.seed, "static-low", ncases, size, prefix="f")
+    if general:
+        # the general reader programs: computed keys, `if`, repeated callees, bodies that read
+        # nothing, input durabilities and synthetic writes above LOW
+        cases += list(pe.corpus("C16-dynamic")) + pe.generate(ctx.seed, "acyclic", 2 * ncases, size, prefix="g")
     spec = pe.specification(cases, driver)
     res, tdirs = {}, []
     for sched in ("pct", "random"):
@@ -134,16 +149,24 @@ def fetch_stage(ctx, harness, driver, out_root, own_kinds):
     with open(casefile, "w") as f:
         f.write("\n".join(cases) + "\n")
     rc, lg = common.sh([exe, casefile] + tdirs, timeout=3000)
-    m = re.search(r"TOTAL2 files=(\d+) ok=(\d+) mismatch=(\d+) skipped=(\d+) steps=(\d+)", lg)
+    m = re.search(r"TOTAL[23] files=(\d+) ok=(\d+) mismatch=(\d+) skipped=(\d+) steps=(\d+)"
+                  r"(?: ok_without_shortcut=(\d+) ok_with_shortcut=(\d+))?", lg)
     if not m:
-        raise common.CheckError("replay2 produced no TOTAL2 line:\n" + lg[-2000:])
-    files, okn, mism, skipped, steps = map(int, m.groups())
+        raise common.CheckError("the trace replayer produced no TOTAL line:\n" + lg[-2000:])
+    files, okn, mism, skipped, steps = map(int, m.groups()[:5])
+    inside, outside = (int(m.group(6)), int(m.group(7))) if m.group(6) else (okn, 0)
     if skipped:
         raise common.CheckError("replay2 skipped traces (program outside the fragment?):\n" +
                                 "\n".join(l for l in lg.split("\n") if l.startswith("SKIPPED"))[:1500])
     st = {s: pe.stats(o) for s, (o, _) in res.items()}
     cov = {
-        "fetch_replay": "every explored schedule of the static-low programs replayed step by step through the extracted CFetch2 model",
+        "fetch_replay": ("every explored schedule of the static-low AND the general reader programs (dynamic call lists, bodies without "
+                         "inputs, durabilities) replayed step by step through the extracted CFetchD model" if general else
+                         "every explored schedule of the static-low programs replayed step by step through the extracted CFetch2 model"),
+        "fetch_model": model,
+        "fetch_traces_ok_in_the_proved_class": inside,
+        "fetch_traces_ok_outside_the_proved_class": outside,
+        "fetch_proved_class": "runs in which the durability short-cut never fires (runs of the model with sc = false)",
         "fetch_cases": len(cases), "fetch_iterations_per_case_and_scheduler": iters,
         "fetch_schedulers": list(res),
         "fetch_traces_replayed": files, "fetch_traces_ok": okn, "fetch_trace_mismatches": mism,
@@ -258,7 +281,7 @@ def replay_generic(ctx, rp, std=False):
     case = rp.get("case")
     if not case and rp.get("trace_files") and rp.get("trace_case"):
         # a recorded trace (H2 + H10) the CFetch2 model cannot follow: replay the kept segments again
-        common.coq_make(["CFetch2/Model.vo"])
+        common.coq_make([("CFetchD" if has_cfetchd() else "CFetch2") + "/Model.vo"])
         exe = build_replay2()
         cf = os.path.join(common.BUILD, "cases", f"replay-fetch-{ctx.prop}.txt")
         os.makedirs(os.path.dirname(cf), exist_ok=True)
@@ -349,7 +372,7 @@ def run_readers(ctx, own_kinds, what, note, nontrivial_desc):
                                first_mismatch=fmis[0][:600], mismatching_traces=len(fmis),
                                trace_files=keep_trace_group(fmis[0], f"{ctx.prop}-fetchtrace-{ctx.seed}"),
                                trace_case=next((c for c in fcases if c.split()[1] == case_id), None),
-                               how_to_replay=".build/ocaml-cfetch/replay2 --verbose <file with trace_case> <directory of trace_files>",
+                               how_to_replay=".build/ocaml-cfetch/replay3 (replay2 before CFetchD) --verbose <file with trace_case> <directory of trace_files>",
                                search=f"no explored schedule violates the specification ({extra} more schedules searched)"),
                           no_input=True)
         if not ctx.violations:
@@ -462,11 +485,15 @@ def build_cert_driver():
 
 
 def explore18(ctx, cases, harness, scheds, iters, out_root, trace_cap, **kw):
+    """scheds: scheduler names ("pct" = PCT depth 3, "pctN" = PCT depth N, "random"); `cases` and
+    `iters` may be dicts keyed by scheduler name"""
     res, tdirs = {}, []
     for sched in scheds:
         td = os.path.join(out_root, "tr-" + sched)
         os.makedirs(td, exist_ok=True)
-        out, hung = pe.run_harness18(cases, harness, iters, sched, ctx.seed, trace_dir=td, trace_cap=trace_cap, **kw)
+        cs = cases[sched] if isinstance(cases, dict) else cases
+        it = iters[sched] if isinstance(iters, dict) else iters
+        out, hung = pe.run_harness18(cs, harness, it, sched, ctx.seed, trace_dir=td, trace_cap=trace_cap, **kw)
         res[sched] = (out, hung)
         tdirs.append(td)
     return res, tdirs
